@@ -9,13 +9,15 @@ from vlib import env, pyxlite, synth, oracle_cky
 from vlib.runner import Inconclusive, stable_hash
 
 OWN = {
+    # glue:* = the finalizer read a rule result that is not there (label taken from somewhere else)
     'C01': ('astar:suboptimal-first-parse', 'astar:priority-increase', 'astar:failed-but-derivable', 'astar:better-than-any-derivation'),
     'C02': ('tree:leaf-mismatch', 'tree:unlicensed-node', 'tree:bad-root', 'tree:unary-at-root', 'tree:not-a-result',
             'glue:ub-index', 'glue:swallowed-exception', 'tree:tag-not-admitted'),
     'C09': ('score:recomputation-mismatch', 'score:placeholder-not-minus-inf'),
     'C10': ('nbest:count', 'nbest:order', 'nbest:scores', 'nbest:duplicate', 'nbest:first-differs-from-1best'),
-    'C12': ('tree:label-not-from-creating-rule', 'tree:head-flag-not-from-rule'),
-    'C16': ('beam:tag-below-beta', 'beam:tag-beyond-pruning', 'beam:parse-needs-excluded-tag', 'astar:failed-but-derivable'),
+    'C12': ('tree:label-not-from-creating-rule', 'tree:head-flag-not-from-rule', 'glue:ub-index', 'glue:swallowed-exception'),
+    'C16': ('beam:tag-below-beta', 'beam:tag-beyond-pruning', 'beam:parse-needs-excluded-tag', 'astar:failed-but-derivable',
+            'beam:cli-setting-altered'),
 }
 ALWAYS = ('sanitizer', 'crash', 'run:raises')
 
@@ -126,7 +128,7 @@ def gen_case(rng, n_sent=1, nbest=None, family=None, max_n=6, sparse=False, head
         ncat = rng.randint(70, 140)
         dens = rng.choice((0.05, 0.1, 0.2))
     g, hl = synth.random_grammar(rng, ncat, ntags, head_left=head_left, density=dens,
-                                 max_results=2 if sparse else 3, mixed_heads=mixed_heads)
+                                 max_results=2 if sparse else rng.choice((3, 3, 4)), mixed_heads=mixed_heads)
     cats = [synth.SCat(i) for i in range(ntags)]
     nroots = rng.choice((1, 2, ncat // 2 + 1, ncat))
     roots = [synth.SCat(i) for i in rng.sample(range(ncat), nroots)]
